@@ -17,24 +17,19 @@ package storage_test
 
 import (
 	"fmt"
-	"os"
 	"sort"
 	"strings"
 	"testing"
 	"time"
 	"unique"
 
+	"github.com/sirupsen/logrus"
 	"pgregory.net/rapid"
 
 	"github.com/projectcalico/calico/goldmane/pkg/storage"
 	"github.com/projectcalico/calico/goldmane/pkg/types"
 	"github.com/projectcalico/calico/goldmane/proto"
 	"github.com/projectcalico/calico/verifkit/ev"
-)
-
-const (
-	c32SigNonTerm = "c32-emit-walk-nonterminating"
-	c32SigWrap    = "c32-emit-walk-wraps-into-newest-buckets"
 )
 
 type c32Sums struct {
@@ -370,19 +365,17 @@ func (m *c32Model) checkEmissions(t *rapid.T, cols []*storage.FlowCollection, bo
 	return
 }
 
-// c32WalkWraps reports whether, on a ring where no bucket was pushed yet, EmitFlowCollections' backwards
-// walk lands exactly on the head bucket (so it is not stopped by the "gone through all the buckets" test).
-func c32WalkWraps(n, pushAfter, agg int) bool { return (n-1-pushAfter)%agg == 0 }
-
-// c32WalkNeverEnds: additionally every later lap also lands on the head => the loop cannot terminate.
-func c32WalkNeverEnds(n, pushAfter, agg int) bool { return c32WalkWraps(n, pushAfter, agg) && n%agg == 0 }
+// c32WalkLandsOnHead reports whether, on a ring where no bucket was pushed yet, EmitFlowCollections'
+// backwards walk lands exactly on the head bucket (the arithmetic of the fixed finding
+// c32-emit-walk-wraps-into-newest-buckets; used only to label cases).
+func c32WalkLandsOnHead(n, pushAfter, agg int) bool { return (n-1-pushAfter)%agg == 0 }
 
 type c32Cfg struct {
 	N, Interval, PushAfter, Agg int
 	Now                         int64
 }
 
-func c32DrawCfg(t *rapid.T, rec *ev.Recorder) c32Cfg {
+func c32DrawCfg(t *rapid.T) c32Cfg {
 	var c c32Cfg
 	c.Interval = rapid.SampledFrom([]int{1, 2, 5, 15}).Draw(t, "interval")
 	c.N = rapid.IntRange(5, ev.Scale(12, 24)).Draw(t, "ringSize")
@@ -402,33 +395,70 @@ func c32DrawCfg(t *rapid.T, rec *ev.Recorder) c32Cfg {
 	c.Agg = rapid.IntRange(1, maxAgg).Draw(t, "bucketsToAggregate")
 	// daemon: start time is aligned to the interval (storage.GetStartTime)
 	c.Now = (1_700_000_000/int64(c.Interval) + rapid.Int64Range(0, 1000).Draw(t, "nowOffset")) * int64(c.Interval)
-	// Known findings: steer the ring size away from the affected arithmetic.
-	for i := 0; i < 40 && os.Getenv("VERIF_C32_NO_EXCLUSIONS") == ""; i++ {
-		if c32WalkNeverEnds(c.N, c.PushAfter, c.Agg) {
-			// cannot be executed at all (the first EmitFlowCollections call with a sink never returns)
-			// — always excluded, see report.  bucketsToAggregate==1 is affected for every ring size.
-			rec.Excluded(c32SigNonTerm)
-			if c.Agg == 1 {
-				c.Agg = 2
-				if c.N < c.PushAfter+c.Agg+2 {
-					c.N = c.PushAfter + c.Agg + 2
-				}
-			} else {
-				c.N++
-			}
-			continue
-		}
-		if c32WalkWraps(c.N, c.PushAfter, c.Agg) && ev.Known(c32SigWrap) {
-			rec.Excluded(c32SigWrap)
-			c.N++
-			continue
-		}
-		break
-	}
-	if os.Getenv("VERIF_C32_NO_EXCLUSIONS") == "" && (c32WalkNeverEnds(c.N, c.PushAfter, c.Agg) || (c32WalkWraps(c.N, c.PushAfter, c.Agg) && ev.Known(c32SigWrap))) {
-		t.Fatalf("HARNESS-GAP: could not steer the configuration %+v away from the known findings", c)
-	}
 	return c
+}
+
+// c32Guard bounds the work of one Rollover/EmitFlowCollections call without goroutines or clocks: while
+// armed, logrus runs at debug level (output discarded, null formatter) and this hook counts the entries the
+// call logs; a call that logs more than the limit is unwound with a panic and reported as non-terminating
+// (the emission walk logs several entries per window it looks at, so a walk that never ends trips the limit
+// within milliseconds instead of wedging the process).
+type c32Guard struct {
+	armed bool
+	n     int
+	limit int
+}
+
+type c32Hang struct{ entries int }
+
+type c32NullFormatter struct{}
+
+func (c32NullFormatter) Format(*logrus.Entry) ([]byte, error) { return nil, nil }
+
+func (g *c32Guard) Levels() []logrus.Level { return logrus.AllLevels }
+func (g *c32Guard) Fire(*logrus.Entry) error {
+	if g.armed {
+		g.n++
+		if g.n > g.limit {
+			g.armed = false
+			panic(c32Hang{g.n})
+		}
+	}
+	return nil
+}
+
+// install hooks the guard into the standard logger and returns the function that restores it.
+func (g *c32Guard) install() func() {
+	std := logrus.StandardLogger()
+	oldHooks := std.ReplaceHooks(logrus.LevelHooks{})
+	oldFmt := std.Formatter
+	nh := logrus.LevelHooks{}
+	nh.Add(g)
+	std.ReplaceHooks(nh)
+	std.SetFormatter(c32NullFormatter{})
+	return func() {
+		std.ReplaceHooks(oldHooks)
+		std.SetFormatter(oldFmt)
+		logrus.SetLevel(logrus.PanicLevel)
+	}
+}
+
+// run executes f (one call into the ring) under the guard; onHang is called instead of wedging.
+func (g *c32Guard) run(ringSize int, f func(), onHang func(entries int)) {
+	g.n, g.limit, g.armed = 0, 2000+400*ringSize, true
+	logrus.SetLevel(logrus.DebugLevel)
+	defer func() {
+		g.armed = false
+		logrus.SetLevel(logrus.PanicLevel)
+		if r := recover(); r != nil {
+			if h, ok := r.(c32Hang); ok {
+				onHang(h.entries)
+				return
+			}
+			panic(r)
+		}
+	}()
+	f()
 }
 
 func c32NewRing(c c32Cfg, clock *int64) *storage.BucketRing {
@@ -442,13 +472,15 @@ func c32NewRing(c c32Cfg, clock *int64) *storage.BucketRing {
 func TestVerifC32Ring(t *testing.T) {
 	ev.Quiet()
 	rec := ev.New("C32", "ring",
-		"rapid state machine over storage.BucketRing (ring 5..12 buckets, interval 1/2/5/15 s, pushAfter 0..3, bucketsToAggregate 2..4 (1 is drawn but always steered away: known finding): flows of 4 keys with start times in the current/future/late/oldest buckets and outside history, single and multi rollovers with or without sink, sink attach (EmitFlowCollections) and detach, List/Statistics/NumFlows over aligned and unaligned ranges, full per-bucket sweep at the end. Non-trivial = a late flow landed in a not-yet-emitted past bucket, a rollover evicted a non-empty bucket and the sink received >=1 non-empty window; distinct = op-kind sequence",
+		"rapid state machine over storage.BucketRing (ring 5..12 buckets, interval 1/2/5/15 s, pushAfter 0..3, bucketsToAggregate 1..4: flows of 4 keys with start times in the current/future/late/oldest buckets and outside history, single and multi rollovers with or without sink, sink attach (EmitFlowCollections) and detach, List/Statistics/NumFlows over aligned and unaligned ranges, full per-bucket sweep at the end. Non-trivial = a late flow landed in a not-yet-emitted past bucket, a rollover evicted a non-empty bucket and the sink received >=1 non-empty window; distinct = op-kind sequence",
 		"acceptance is defined by the ring's own BeginningOfHistory/EndOfHistory accessors",
 		"for bounds that are not bucket aligned only the sandwich (fully covered buckets <= result <= touched buckets) is required",
 		"Statistics results are compared as allowed/denied totals (in+out) per policy, packets and bytes")
 	defer rec.Write()
+	guard := &c32Guard{}
+	defer guard.install()()
 	rapid.Check(t, func(t *rapid.T) {
-		cfg := c32DrawCfg(t, rec)
+		cfg := c32DrawCfg(t)
 		I := int64(cfg.Interval)
 		clock := cfg.Now
 		ring := c32NewRing(cfg, &clock)
@@ -538,8 +570,19 @@ func TestVerifC32Ring(t *testing.T) {
 			}
 		}
 
+		guarded := func(t *rapid.T, what string, f func()) {
+			guard.run(cfg.N, f, func(entries int) {
+				t.Fatalf("%s did not terminate: it logged %d entries in one call (limit %d) — the emission walk does not stop (cfg %+v)\nmodel:\n%s",
+					what, entries, guard.limit, cfg, m.dump())
+			})
+		}
+
 		rollover := func(t *rapid.T) {
-			ring.Rollover(cur)
+			if cur != nil {
+				guarded(t, "Rollover(sink)", func() { ring.Rollover(cur) })
+			} else {
+				ring.Rollover(nil)
+			}
 			clock += I
 			boh, _ := hist()
 			for _, s := range m.sortedStarts() {
@@ -619,7 +662,7 @@ func TestVerifC32Ring(t *testing.T) {
 					classes["sink-detach"] = true
 					ops = append(ops, "s")
 				}
-				ring.EmitFlowCollections(cur)
+				guarded(t, "EmitFlowCollections(sink)", func() { ring.EmitFlowCollections(cur) })
 				afterEmit(t, "EmitFlowCollections on sink change")
 			},
 			"list": func(t *rapid.T) {
@@ -680,8 +723,14 @@ func TestVerifC32Ring(t *testing.T) {
 			cl = append(cl, c)
 		}
 		sort.Strings(cl)
-		if c32WalkWraps(cfg.N, cfg.PushAfter, cfg.Agg) {
-			cl = append(cl, "cfg-walk-wraps")
+		if c32WalkLandsOnHead(cfg.N, cfg.PushAfter, cfg.Agg) {
+			cl = append(cl, "cfg-walk-lands-on-head")
+			if cfg.N%cfg.Agg == 0 {
+				cl = append(cl, "cfg-walk-lands-on-head-every-lap")
+			}
+		}
+		if cfg.Agg == 1 {
+			cl = append(cl, "cfg-single-bucket-windows")
 		}
 		rec.SizedCase(nontrivial, strings.Join(ops, ""), len(ops)+nFlows, func() any {
 			return map[string]any{"cfg": cfg, "ops": strings.Join(ops, ""), "flows_added": nFlows, "windows_emitted": m.emitted}
@@ -689,39 +738,55 @@ func TestVerifC32Ring(t *testing.T) {
 	})
 }
 
-// TestVerifC32KnownWalkWraps is the deterministic confirmation of finding
-// c32-emit-walk-wraps-into-newest-buckets (not matched by the unit's run regex).
+// TestVerifC32KnownWalkWraps is the deterministic regression test for the fixed finding
+// c32-emit-walk-wraps-into-newest-buckets at the production ring size (242 buckets of 15 s):
+//   - EMIT_AFTER_SECONDS=15 (pushAfter 1) with the default 5 m emitter window (20 buckets): (242-1-1)%20 == 0,
+//     the walk used to wrap past the head, emit a premature window and then an overlapping one;
+//   - EMITTER_AGGREGATION_WINDOW=15s (1 bucket per window) and 30s with pushAfter 1 (2 | 242): the walk
+//     used to never terminate.
 func TestVerifC32KnownWalkWraps(t *testing.T) {
 	ev.Quiet()
-	if os.Getenv("VERIF_C32_SKIP_KNOWN") != "" {
-		t.Skip()
-	}
-	c32KnownWalkWraps(t)
-}
-
-func c32KnownWalkWraps(t *testing.T) {
-	// Production ring size (242 buckets of 15 s) with EMIT_AFTER_SECONDS=15 (pushAfter 1) and the default
-	// 5 m emitter window (20 buckets): (242-1-1)%20 == 0.
-	cfg := c32Cfg{N: 242, Interval: 15, PushAfter: 1, Agg: 20, Now: 1_700_000_010 / 15 * 15}
-	clock := cfg.Now
-	ring := c32NewRing(cfg, &clock)
-	keys := c32Keys()
-	sink := &c32Sink{}
-	eoh := ring.EndOfHistory()
-	// one flow in the bucket that is currently filling ("now")
-	ring.AddFlow(&types.Flow{Key: keys[0].key, StartTime: eoh - 2*15, EndTime: eoh - 2*15 + 1, PacketsIn: 1, BytesIn: 10,
-		SourceLabels: unique.Make(""), DestLabels: unique.Make("")})
-	var windows [][2]int64
-	for i := 0; i < 25; i++ {
-		ring.Rollover(sink)
-		for _, c := range sink.take() {
-			t.Logf("rollover %d: sink received window [%d,%d) with %d flow(s), packetsIn=%d", i+1, c.StartTime, c.EndTime, len(c.Flows), c.Flows[0].PacketsIn)
-			for _, w := range windows {
-				if c.StartTime < w[1] && w[0] < c.EndTime {
-					t.Fatalf("window [%d,%d) emitted although the overlapping window [%d,%d) was emitted before: the flow was sent to the sink twice", c.StartTime, c.EndTime, w[0], w[1])
+	guard := &c32Guard{}
+	defer guard.install()()
+	for _, cfg := range []c32Cfg{
+		{N: 242, Interval: 15, PushAfter: 1, Agg: 20, Now: 1_700_000_010},
+		{N: 242, Interval: 15, PushAfter: 2, Agg: 1, Now: 1_700_000_010},
+		{N: 242, Interval: 15, PushAfter: 1, Agg: 2, Now: 1_700_000_010},
+	} {
+		clock := cfg.Now
+		ring := c32NewRing(cfg, &clock)
+		keys := c32Keys()
+		sink := &c32Sink{}
+		eoh := ring.EndOfHistory()
+		// one flow in the bucket that is currently filling ("now")
+		ring.AddFlow(&types.Flow{Key: keys[0].key, StartTime: eoh - 2*15, EndTime: eoh - 2*15 + 1, PacketsIn: 1, BytesIn: 10,
+			SourceLabels: unique.Make(""), DestLabels: unique.Make("")})
+		var windows [][2]int64
+		emit := func(what string, f func()) {
+			guard.run(cfg.N, f, func(entries int) {
+				t.Fatalf("cfg %+v: %s did not terminate (%d log entries in one call)", cfg, what, entries)
+			})
+			for _, c := range sink.take() {
+				t.Logf("cfg %+v %s: sink received window [%d,%d) with %d flow(s)", cfg, what, c.StartTime, c.EndTime, len(c.Flows))
+				if c.EndTime > ring.EndOfHistory()-int64(15*(2+cfg.PushAfter)) {
+					t.Fatalf("cfg %+v: window [%d,%d) reaches into the %d newest buckets that are not yet due (history ends %d)",
+						cfg, c.StartTime, c.EndTime, 2+cfg.PushAfter, ring.EndOfHistory())
 				}
+				for _, w := range windows {
+					if c.StartTime < w[1] && w[0] < c.EndTime {
+						t.Fatalf("cfg %+v: window [%d,%d) emitted although the overlapping window [%d,%d) was emitted before: the flow was sent to the sink twice",
+							cfg, c.StartTime, c.EndTime, w[0], w[1])
+					}
+				}
+				windows = append(windows, [2]int64{c.StartTime, c.EndTime})
 			}
-			windows = append(windows, [2]int64{c.StartTime, c.EndTime})
+		}
+		emit("EmitFlowCollections on a fresh ring", func() { ring.EmitFlowCollections(sink) })
+		for i := 0; i < 25; i++ {
+			emit(fmt.Sprintf("rollover %d", i+1), func() { ring.Rollover(sink) })
+		}
+		if len(windows) != 1 {
+			t.Fatalf("cfg %+v: the flow was emitted in %d windows %v, want exactly one", cfg, len(windows), windows)
 		}
 	}
 }
